@@ -461,6 +461,16 @@ def part_c(level):
             yield (("C-if", t[:8]), "(if %s (begin (obs 'then) (if %s 1 2)) (begin (obs 'else) 3))" % (t, t2))
             yield (("C-cond", t[:8]), "(cond (%s 'a) (%s (obs 'b)) (else 'c))" % (t, t2))
             yield (("C-and", t[:8]), "(list (and %s %s) (or %s %s))" % (t, t2, t, t2))
+    # constant folds that raise, in code that is compiled but not (yet) run, compiled at run time under a handler: the error
+    # belongs to the run of that code, never to its compilation
+    bad = ["(/ 1 0)", "(quotient 7 0)", "(+ 1 'a)", "(remainder 5 0)", "(* \"s\" 2)", "(< 1 'b)", "(- #t)"]
+    for e in bad:
+        for shape in ["(lambda () %s)", "(if #f %s 'untaken)", "(lambda (x) (if x 'yes %s))", "(let ((f (lambda () %s))) 'bound)", "(let ((f (lambda (x) (if x %s 'fine)))) (f #f))",
+                      "(let ((f (lambda (x) (if x 'fine %s)))) (list (f #t)))", "((lambda (y) (let ((g (lambda () %s))) y)) 'arg)"]:
+            form = shape % e
+            yield (("C-foldraise", shape[:12]), "(let ((h 0)) (list (with-exception-handler (lambda (c) (set! h (+ h 1)) 'handled) "
+                   "(lambda () (let ((v (eval '%s (environment '(scheme base))))) (if (procedure? v) 'procedure v)))) h))" % form)
+            yield (("C-foldraise-guard", shape[:12]), "(guard (c (#t (list 'caught (error-object? c)))) (let ((v (eval '%s (environment '(scheme base))))) (if (procedure? v) 'procedure v)))" % form)
     # value-only statements in sequences
     stmts = ["1", "x", "(lambda () 1)", "(obs 's1)", "\"str\"", "(+ 1 2)", "(set! x (+ x 1))", "(if #f #f)", "'(q)", "(car (list (obs 's2)))"]
     for a in stmts:
